@@ -86,14 +86,46 @@ def l32_term(r):
                                                  hexl(r["back"]), cbool(r["gen"] == "corrupt1"))
 
 
+def av_term(a):
+    ty = a["ty"]
+    if ty == "TBool":
+        return "(VBool %s)" % cbool(a["b"])
+    if ty in ("TU32", "TU64"):
+        return "(VU %s)" % a["u"]
+    if ty in ("TI32", "TI64"):
+        return "(VI %s)" % cz(a["i"])
+    if ty in ("TStr", "TBytes"):
+        return "(VBytes %s)" % hexl(a.get("x", ""))
+    if ty in ("TBytesArr", "TStrs"):
+        return "(VBytesL %s)" % clist(a.get("xl") or [], hexl)
+    if ty == "TBools":
+        return "(VBools %s)" % clist(a.get("bl") or [], cbool)
+    if ty in ("TU32s", "TU64s"):
+        return "(VUs %s)" % clist(a.get("ul") or [], str)
+    if ty == "TMsg":
+        return "(VMsg None)" if a.get("nil") else "(VMsg (Some %s))" % avs_term(a.get("m") or [])
+    if ty == "TMsgs":
+        return "(VMsgs %s)" % clist(a.get("ml") or [], avs_term)
+    raise ValueError(ty)
+
+
+def avs_term(avs):
+    return clist(avs, av_term)
+
+
+def direct_term(r):
+    return '("%s"%%string, %s, %s, %d, %s, %d)' % (r["name"], avs_term(r["v"]), hexl(r["enc"]), r["st"], avs_term(r.get("back") or []), r["sst"])
+
+
 KINDS = {
     "r": ("read_case", "check_read", read_term, "Reader primitive"),
     "w": ("write_case", "check_write", write_term, "Writer primitive"),
     "s": ("struct_case", "check_struct", struct_term, "generated struct codec"),
     "l32": ("l32_case", "check_l32", l32_term, "Lisk32 conversion"),
+    "dv": ("direct_case", "check_direct", direct_term, "directly built Go value: Encode then Decode, field-wise"),
 }
 
-SHARD = {"r": 1500, "w": 300, "s": 150, "l32": 100}
+SHARD = {"r": 1500, "w": 300, "s": 150, "l32": 100, "dv": 60}
 
 OPNAMES = ["UInt", "UInt32", "UInts", "UInt32s", "Int", "Int32", "Ints", "Bool", "Bools", "Bytes", "BytesArray", "String",
            "Strings", "Int32s"]
@@ -332,6 +364,9 @@ def run(ck):
         "boundary values, assets, events; block cache 1/2/100) saved by Chain.AddBlock on in-memory pebble and read back by "
         "GetBlock / GetBlockByHeight / GetBlockHeader / GetBlockHeaderByHeight / GetTransaction(s) / GetEvents through the writing "
         "and a fresh DataAccess: IDs, re-encoded bytes and ID = SHA-256(re-encoding). Nil elements inserted by reflection into every "
+        "Go values built DIRECTLY by reflection from model values (non-NFC strings, nil/empty slices, nil nested messages at every "
+        "depth, uint32 boundaries; 80 structs with settable fields): real Encode bytes = model encoding, the value the real Decode "
+        "returns is compared field by field with the model and with canon v. "
         "[]*T field of decoded values: Encode must not panic and must write the same bytes. Payload sizes 126..130 (thorough also "
         "16382..16386) bytes for packed arrays of one- and two-byte elements, bytes and strings, through the Writer primitives and "
         "through every struct field of those kinds; field keys widened by m*2^32. IDs after Init-edit-Init, after a JSON round trip "
